@@ -155,8 +155,10 @@ func runPortfolio(script string, dir string, name string, timeout time.Duration,
 	for _, s := range solvers {
 		members = append(members, member{s, file, seed, false, s.name})
 	}
-	if !all {
-		// a second z3 with another seed (quantifier instantiation order is seed-sensitive), and the sliced script
+	{
+		// a second z3 with another seed (quantifier instantiation order is seed-sensitive), and the sliced script.
+		// The thorough tier (all == true) runs the same members, all at once, and waits until TWO of them agree (or all
+		// have finished): every answer is cross-checked by a second solver / script variant.
 		members = append(members, member{solvers[0], file, seed + 7, false, solvers[0].name + "/seed+7"})
 		if slicedFile != "" {
 			members = append(members, member{solvers[0], slicedFile, seed, true, solvers[0].name + "/sliced"})
@@ -225,6 +227,7 @@ func runPortfolio(script string, dir string, name string, timeout time.Duration,
 	}
 	go func() { wg.Wait(); close(ch) }()
 	out := solveOut{result: "unknown", perSolver: map[string]float64{}, both: map[string]string{}}
+	agree := 0
 	var raws []string
 	for x := range ch {
 		out.perSolver[x.solver] = x.secs
@@ -239,6 +242,12 @@ func runPortfolio(script string, dir string, name string, timeout time.Duration,
 					}
 				}
 				if !all {
+					cancel()
+				}
+			} else if out.result == x.result && all {
+				// thorough tier: a second member agrees — enough, stop the remaining members
+				agree++
+				if agree >= 1 {
 					cancel()
 				}
 			} else if out.result != x.result {
